@@ -146,7 +146,7 @@ def linear(t, ctx):
         if o in INT_OPS:
             return {t: 1}, 0
         raise NonLinear()
-    if k in ('len', 'idx', 'pos', 'in', 'arg'):
+    if k in ('len', 'idx', 'pos', 'in', 'arg', 'mu'):
         return {t: 1}, 0
     raise NonLinear()
 
@@ -524,4 +524,23 @@ def loop_hyps(pc, ctx):
                 for key, (init, nxt) in info.get('carried', {}).items():
                     if nxt is not None and nxt != ('mu', c[1], key) and _len_preserving(nxt, c[1], key):
                         out.append(op('eq', ('len', ('mu', c[1], key)), ('len', init)))
+                    # linear induction variable: v' = v ∓ 1 on every iteration, so v = init ∓ (position − first position)
+                    mu = ('mu', c[1], key)
+                    it = info.get('iter')
+                    lo = None
+                    if isinstance(it, tuple) and it and it[0] == 'range':
+                        lo = it[1]
+                    elif isinstance(it, tuple) and it and it[0] in ('iter', 'copied', 'iter_mut'):
+                        cur = it
+                        while isinstance(cur, tuple) and cur and cur[0] == 'copied':
+                            cur = cur[1]
+                        if isinstance(cur, tuple) and cur and cur[0] in ('iter', 'iter_mut'):
+                            lo = ('lit', 0, 'i')
+                    if lo is not None and isinstance(nxt, tuple) and nxt[:1] == ('op',) and nxt[1] in ('isub', 'iadd') \
+                            and nxt[2][0] == mu and nxt[2][1] == ('lit', 1, 'i'):
+                        idx = ('idx', c[1])
+                        if nxt[1] == 'isub':
+                            out.append(op('eq', op('iadd', mu, idx), op('iadd', init, lo)))
+                        else:
+                            out.append(op('eq', op('iadd', mu, lo), op('iadd', init, idx)))
     return out
